@@ -43,9 +43,34 @@ def gen_case(rng, cid, max_len=3, max_depth=2, allow=None, short_prob=0.0,
             # fit on free-response data (all inputs zero), use on driven data
             Xfit = np.array(X, copy=True)
             Xfit[:, (1 if ep else 0) + ns:] = 0
+        pres = PRESENTATIONS[cid % len(PRESENTATIONS)]
+        same = Xfit is X
+        X = present(X, pres)
+        Xfit = X if same else present(Xfit, pres)
         return dict(cid=cid, chain=chain, ns=ns, nu=nu, ep=ep, X=X, Xfit=Xfit, mode=mode,
-                    w=w, dims=d)
+                    w=w, dims=d, presentation=pres)
     raise RuntimeError('generator could not produce a case')
+
+
+def present(X, mode):
+    """the same numbers, presented to the library as another kind of array"""
+    X = np.asarray(X)
+    if mode == 'int' and np.all(X == np.round(X)):
+        return X.astype(np.int64)
+    if mode == 'fortran':
+        return np.asfortranarray(X)
+    if mode == 'view':
+        big = np.zeros((X.shape[0] * 2, X.shape[1] * 2 + 1))
+        big[::2, 1::2] = X
+        return big[::2, 1::2]               # non-contiguous view with the same contents
+    if mode == 'readonly':
+        Y = np.array(X, copy=True)
+        Y.setflags(write=False)
+        return Y
+    return X
+
+
+PRESENTATIONS = ['float', 'float', 'int', 'fortran', 'view', 'readonly']
 
 
 def prefit_history(kp, case):
@@ -79,7 +104,7 @@ def fit_case(case):
 def describe(case):
     return dict(cid=case['cid'], chain=repr(case['chain']), n_states=case['ns'],
                 n_inputs=case['nu'], episode_feature=case['ep'],
-                rows=int(case['X'].shape[0]), layout=case['mode'],
+                rows=int(case['X'].shape[0]), layout=case['mode'], array_presentation=case.get('presentation', 'float'),
                 fit_on_zero_inputs=bool(case.get('Xfit') is not case['X']),
                 min_samples=case['w'])
 
